@@ -44,6 +44,7 @@ type FuncContract struct {
 	NoSafe     bool
 	Abstract   bool
 	Fresh      bool // result is freshly allocated
+	NoEffect   []string // callee-name patterns assumed to have no effect on the modelled heap
 	File       string
 	Line       int
 	Props      []string
@@ -86,7 +87,7 @@ type Contracts struct {
 
 func fkey(pkg, name string) string { return pkg + "::" + name }
 
-var kwRe = regexp.MustCompile(`^(func|spec|lemma|axiom|uf|requires|ensures|invariant|loop|assigns|pure|inline|trusted|maypanic|nosafe|abstract|fresh|at|props|finding)\b`)
+var kwRe = regexp.MustCompile(`^(func|spec|lemma|axiom|uf|requires|ensures|invariant|loop|assigns|pure|inline|trusted|maypanic|nosafe|abstract|fresh|at|props|finding|noeffect)\b`)
 
 // loadContractFile parses one file. pkgPath is the import path of the package it annotates.
 func (cs *Contracts) loadContractFile(path, pkgPath string) error {
@@ -266,6 +267,8 @@ func (cs *Contracts) loadContractFile(path, pkgPath string) error {
 			cur.Abstract = true
 		case "fresh":
 			cur.Fresh = true
+		case "noeffect":
+			cur.NoEffect = append(cur.NoEffect, strings.Fields(strings.ReplaceAll(rest, ",", " "))...)
 		case "props":
 			ps := strings.Fields(strings.ReplaceAll(rest, ",", " "))
 			if cur != nil {
